@@ -270,11 +270,19 @@ def fitness_oracle(ctx, rep):
             warnings.simplefilter("ignore")
             data = ImplicitTrainingData(x)
         genome = G.random_stack(rng, rng.choice([3, 5, 8]), D, [G.ADD, G.SUB, G.MUL, G.SIN], term_prob=0.35, const_prob=0.0, int_prob=0.1, n_load=2)
-        alpha = rng.choice([-3, -1, 2, 5])
-        scaled = [list(r) for r in genome] + [[G.INTEGER, alpha, alpha], [G.MUL, len(genome) - 1, len(genome)]]
         a1, a2 = AGraph(), AGraph()
         a1.command_array = np.array(genome, dtype=int).reshape(-1, 3)
-        a2.command_array = np.array(scaled, dtype=int).reshape(-1, 3)
+        if rng.random() < 0.5:
+            alpha = rng.choice([-3, -1, 2, 5])
+            scaled = [list(r) for r in genome] + [[G.INTEGER, alpha, alpha], [G.MUL, len(genome) - 1, len(genome)]]
+            a2.command_array = np.array(scaled, dtype=int).reshape(-1, 3)
+        else:
+            # any non-zero factor, also very small and very large ones (the fitness is a ratio: it has no scale)
+            alpha = rng.choice([1e-24, -1e-20, 1e-12, -3e-7, 0.5, 1e6, -1e15, 1e24])
+            scaled = [list(r) for r in genome] + [[G.CONSTANT, 0, 0], [G.MUL, len(genome) - 1, len(genome)]]
+            a2.command_array = np.array(scaled, dtype=int).reshape(-1, 3)
+            a2.set_local_optimization_params([alpha])
+            rep.count("implicit_scale_factor", f"{alpha:.0e}")
         fit = ImplicitRegression(data)
         with warnings.catch_warnings():
             warnings.simplefilter("ignore")
